@@ -43,6 +43,9 @@ type Op struct {
 	Script bool                         `json:"script"` // rendered as Numscript (else as a postings request)
 	Src    string                       `json:"src"`    // import: the ledger whose export is imported
 	API    string                       `json:"api"`    // v2 (default) | v1
+	// script requests only: metadata the script itself sets (set_tx_meta / set_account_meta)
+	SMeta  map[string]string            `json:"smeta"`
+	SAMeta map[string]map[string]string `json:"sameta"`
 }
 
 func (o *Op) Norm() {
@@ -57,6 +60,17 @@ func (o *Op) Norm() {
 	}
 	if o.API == "" {
 		o.API = "v2"
+	}
+	if o.SMeta == nil {
+		o.SMeta = map[string]string{}
+	}
+	if o.SAMeta == nil {
+		o.SAMeta = map[string]map[string]string{}
+	}
+	for a, m := range o.SAMeta {
+		if len(m) == 0 {
+			delete(o.SAMeta, a) // a script cannot name an account without setting a key on it
+		}
 	}
 }
 
